@@ -111,19 +111,27 @@ def gen_case(seed):
     interp = rng.choice(['zoom', 'zoom', 'zoom_noclip', 'idw'])
     fill = rng.choice([0.0, 0.0, -1.5, 7.25, 1000.0])
     return dict(seed=seed, data=data, box=box, mask=mask, cov=cov, p=p, est=rng.choice(['mean', 'median']),
-                fsize=fs, fthr=fthr, interp=interp, fill=fill, kind=kind, mk=mk, ck=ck)
+                fsize=fs, fthr=fthr, interp=interp, fill=fill, kind=kind, mk=mk, ck=ck, mdt=_mdt(seed))
 
 
 def directed_cases():
     """Hand-written cases that sit on the boundaries named in the property's quantifier."""
     def mk(data, box, mask=None, cov=None, p=10, est='mean', fsize=(1, 1), fthr=None, interp='zoom', fill=0.0,
-           kind='directed'):
+           kind='directed', mdt=('bool', 'bool')):
         data = np.asarray(data, float)
         return dict(seed=None, data=data, box=box, mask=None if mask is None else np.asarray(mask, bool),
                     cov=None if cov is None else np.asarray(cov, bool), p=p, est=est, fsize=fsize, fthr=fthr,
                     interp=interp, fill=fill, kind=kind, mk='none' if mask is None else 'directed',
-                    ck='none' if cov is None else 'directed')
+                    ck='none' if cov is None else 'directed', mdt=mdt)
     out = []
+    # masks given as 0/1 integers and uint8 (array_like (bool) in the documentation)
+    cv = np.zeros((6, 6), bool)
+    cv[3, 4] = cv[5, 0] = True
+    mm = np.zeros((6, 6), bool)
+    mm[0, 0] = mm[4, 4] = True
+    out.append(mk(np.arange(36.).reshape(6, 6), (3, 3), cov=cv, p=50, fill=-99.0, mdt=('bool', 'int64')))
+    out.append(mk(np.arange(36.).reshape(6, 6) * 0.5, (3, 2), mask=mm, cov=cv, p=50, fill=7.25, interp='idw',
+                  mdt=('int64', 'uint8')))
     # exclude_percentile = 0 on a clean image: every box has no masked pixel and must be kept
     out.append(mk(np.full((4, 4), 3.0), (2, 2), p=0, kind='const'))
     out.append(mk(np.arange(36.).reshape(6, 6), (3, 3), p=0, est='median', interp='idw'))
@@ -153,6 +161,21 @@ def directed_cases():
     return out
 
 
+MDT = ('bool', 'int64', 'uint8', 'bool', 'int32')
+
+
+def _mdt(seed):
+    """dtype in which mask / coverage_mask are handed to Background2D (True/False, 0/1 integers, uint8)"""
+    return (MDT[(seed // 7) % len(MDT)], MDT[(seed // 11) % len(MDT)])
+
+
+def _m(c, key):
+    m = c[key]
+    if m is None:
+        return None
+    return m.astype(c.get('mdt', ('bool', 'bool'))[0 if key == 'mask' else 1])
+
+
 def describe(c):
     def v(x):
         x = float(x)
@@ -162,7 +185,8 @@ def describe(c):
             'mask': None if c['mask'] is None else c['mask'].astype(int).tolist(),
             'coverage_mask': None if c['cov'] is None else c['cov'].astype(int).tolist(),
             'exclude_percentile': c['p'], 'bkg_estimator': c['est'], 'filter_size': list(c['fsize']),
-            'filter_threshold': c['fthr'], 'interpolator': c['interp'], 'fill_value': c['fill']}
+            'filter_threshold': c['fthr'], 'interpolator': c['interp'], 'fill_value': c['fill'],
+            'mask_dtypes': list(c.get('mdt', ('bool', 'bool')))}
 
 
 def undescribe(d):
@@ -172,7 +196,8 @@ def undescribe(d):
                 box=tuple(d['box_size']), mask=None if d['mask'] is None else np.array(d['mask'], bool),
                 cov=None if d['coverage_mask'] is None else np.array(d['coverage_mask'], bool),
                 p=d['exclude_percentile'], est=d['bkg_estimator'], fsize=tuple(d['filter_size']),
-                fthr=d['filter_threshold'], interp=d['interpolator'], fill=d['fill_value'])
+                fthr=d['filter_threshold'], interp=d['interpolator'], fill=d['fill_value'],
+                mdt=tuple(d.get('mask_dtypes', ('bool', 'bool'))))
 
 
 # --------------------------------------------------------------------------
@@ -186,8 +211,7 @@ def _build(c, fsize):
         interp = BkgIDWInterpolator()
     else:
         interp = BkgZoomInterpolator(clip=(c['interp'] == 'zoom'))
-    return Background2D(c['data'].copy(), c['box'], mask=None if c['mask'] is None else c['mask'].copy(),
-                        coverage_mask=None if c['cov'] is None else c['cov'].copy(), fill_value=c['fill'],
+    return Background2D(c['data'].copy(), c['box'], mask=_m(c, 'mask'), coverage_mask=_m(c, 'cov'), fill_value=c['fill'],
                         exclude_percentile=c['p'], filter_size=fsize, filter_threshold=c['fthr'],
                         sigma_clip=None, bkg_estimator=est, bkgrms_estimator=StdBackgroundRMS(),
                         interpolator=interp)
@@ -671,7 +695,7 @@ def _build_rel(c, data, fthr):
     import photutils.background as pb
     from astropy.stats import SigmaClip
     interp = pb.BkgIDWInterpolator() if c['interp'] == 'idw' else pb.BkgZoomInterpolator()
-    return pb.Background2D(data, c['box'], mask=c['mask'], coverage_mask=c['cov'], fill_value=c['fill'],
+    return pb.Background2D(data, c['box'], mask=_m(c, 'mask'), coverage_mask=_m(c, 'cov'), fill_value=c['fill'],
                            exclude_percentile=c['p'], filter_size=c['fsize'], filter_threshold=fthr,
                            sigma_clip=None if c['sclip'] is None else SigmaClip(sigma=c['sclip'], maxiters=10),
                            bkg_estimator=getattr(pb, c['bkg'])(), bkgrms_estimator=getattr(pb, c['rms'])(),
@@ -944,7 +968,8 @@ def _seq_build(c, A, B, req, interp):
     from astropy.stats import SigmaClip
     mask = {'cov=A': None, 'mask=A': A, 'none': None, 'cov=A,mask=B': B, 'cov=B,mask=A': A}[req['kind']]
     cov = {'cov=A': A, 'mask=A': None, 'none': None, 'cov=A,mask=B': A, 'cov=B,mask=A': B}[req['kind']]
-    kw = dict(mask=None if mask is None else mask.copy(), coverage_mask=None if cov is None else cov.copy(),
+    mdt = c.get('mdt', ('bool', 'bool'))
+    kw = dict(mask=None if mask is None else mask.astype(mdt[0]), coverage_mask=None if cov is None else cov.astype(mdt[1]),
               fill_value=req['fill'], exclude_percentile=c['p'], filter_size=c['fsize'],
               sigma_clip=None if c['sclip'] is None else SigmaClip(sigma=c['sclip'], maxiters=10),
               bkg_estimator=getattr(pb, c['bkg'])(), bkgrms_estimator=getattr(pb, c['rms'])())
@@ -1032,105 +1057,130 @@ def gen_constant(seed, k):
     cval = float(dt(cval))
     mk = rng.choice(['none', 'none', 'random', 'block', 'one'])
     ck = rng.choice(['none', 'none', 'one', 'band'])
-    return dict(seed=seed, k=k, data=np.full((ny, nx), cval, dtype=dt), cval=cval, ckind=kind, box=box,
+    return dict(seed=seed, k=k, mdt=_mdt(seed), data=np.full((ny, nx), cval, dtype=dt), cval=cval, ckind=kind, box=box,
                 mask=None if mk == 'none' else _mask(rng, ny, nx, mk), cov=None if ck == 'none' else _mask(rng, ny, nx, ck),
                 p=rng.choice([10, 50, 90, 100]), fsize=rng.choice([(1, 1), (1, 1), (3, 3)]), fthr=None,
                 interp=rng.choice(['zoom', 'zoom', 'idw']), fill=rng.choice([0.0, -1.5, 7.25]),
                 sclip=rng.choice([None, 3.0, 3.0]), rms='StdBackgroundRMS', bkg='MeanBackground')
 
 
+KNOWN_MEAN = 'Background2D:constant-image-inexact:background:MeanBackground'
+KNOWN_MODE = 'Background2D:constant-image-inexact:background:ModeEstimatorBackground/MMMBackground'
+KNOWN_STD = 'Background2D:constant-image-inexact:background_rms:StdBackgroundRMS'
+
+
 def run_constant(c):
-    """'reproduce a constant image exactly (RMS 0)' for every estimator class and arbitrary constants.
-    Demanded exactly: Median, BiweightLocation, MADStd, BiweightScale always; SExtractor == Mean wherever the box
-    std is 0 (its documented rule), Mode/MMM == 3*median - 2*mean of the Mean run (their definition), Std == 0
-    wherever the box mean is exactly c; a constant mesh gives exactly that constant map.  Where the float mean of n
-    copies of c is not c (legitimate: e.g. 0.1+0.1+0.1), only a rounding-level bound is demanded and the case is
-    counted.  Returns (fails, stats)."""
+    """'reproduce a constant image exactly (RMS 0)' for every estimator class and arbitrary constants c.
+    Demanded exactly, always: Median, BiweightLocation and SExtractor (the default) backgrounds = c; MADStd and
+    BiweightScale RMS = 0; Std RMS = 0 in every box whose float mean is exactly c; Mode/MMM mesh = 3*median - 2*mean
+    of the Mean run (their definition); a constant mesh gives exactly that constant map; fill_value on coverage.
+    Recorded findings (the float mean of n equal values need not be that value), each with the bound it must obey
+    (n = box_npixels, eps = spacing of the dtype at 1, +8 eps |c| for filter / interpolation roundings):
+      KNOWN_MEAN  |background - c| <= n eps |c|         MeanBackground
+      KNOWN_STD   |background_rms| <= n eps |c|         StdBackgroundRMS (the default RMS estimator)
+      KNOWN_MODE  |background - c| <= (2 n + 4) eps |c| ModeEstimator / MMM (3 c - 2 mean also rounds when mean = c)
+    A deviation beyond the bound, or in any other quantity, is an ordinary Background2D:constant-image violation.
+    Returns (fails, stats)."""
     fails, st = [], {}
     data, cval = c['data'], c['cval']
     dt = data.dtype.type
     cov = c['cov'] if c['cov'] is not None else np.zeros(data.shape, bool)
     cfg = f"c={cval!r}/{data.dtype}/{data.shape}/box={c['box']}/{c['interp']}/filter={c['fsize']}/clip={c['sclip']}"
-    tol = 64 * _ulp(data.dtype) * abs(cval)
-
-    def obs(bkg, rms):
-        return _obs_rel(dict(c, bkg=bkg, rms=rms), data.copy())
-    ref = obs('MeanBackground', 'StdBackgroundRMS')
-    if ref is None:
-        return [], {'all_excluded': 1}
-    ref1 = ref if c['fsize'] == (1, 1) else _obs_rel(dict(c, fsize=(1, 1)), data.copy())
-    mean1, std1, excl = ref1[0], ref1[1], ref1[5]
-    kept = ~excl
-    mean_exact = (mean1 == dt(cval))
+    nbox = min(c['box'][0], data.shape[0]) * min(c['box'][1], data.shape[1])
+    u = _ulp(data.dtype) * abs(cval)
+    bound = nbox * u
 
     def count(key, n=1):
         st[key] = st.get(key, 0) + int(n)
 
-    def check_maps(o, name, cls, exact_to):
-        bmesh, bmap = (o[0], o[3]) if name == 'background' else (o[1], o[4])
-        if np.ptp(bmesh) == 0 and not np.all(bmap[~cov] == bmesh.flat[0]):
-            fails.append(('Background2D:constant-image', f'{name}: constant mesh {bmesh.flat[0]!r} but the map is not that constant ({cls}, {cfg})'))
-        if exact_to is not None and not (np.all(bmesh == dt(exact_to)) and np.all(bmap[~cov] == dt(exact_to))):
-            dev = max(float(np.max(np.abs(bmesh.astype(float) - exact_to))),
-                      float(np.max(np.abs(bmap[~cov].astype(float) - exact_to))) if (~cov).any() else 0.0)
-            fails.append(('Background2D:constant-image', f'constant image: {name} is not exactly {exact_to!r} '
-                          f'(max deviation {dev:.3g}) with {cls} ({cfg})'))
-        elif not (_near(bmesh.astype(float), float(exact_to if exact_to is not None else (cval if name == 'background' else 0.0)), tol)
-                  and _near(bmap[~cov].astype(float), float(exact_to if exact_to is not None else (cval if name == 'background' else 0.0)), tol)):
-            fails.append(('Background2D:constant-image', f'constant image: {name} deviates from the constant by more than '
-                          f'{tol:.3g} with {cls} ({cfg})'))
-        if not np.all(bmap[cov] == dt(c['fill'])):
-            fails.append(('Background2D:coverage-fill', f'{name} != fill_value on the coverage mask ({cls}, {cfg})'))
+    def obs(bkg, rms, fsize=None):
+        return _obs_rel(dict(c, bkg=bkg, rms=rms, fsize=c['fsize'] if fsize is None else fsize), data.copy())
 
-    all_exact = bool(np.all(mean_exact[kept]))
-    count('cases_mean_exact_in_every_box' if all_exact else 'cases_float_mean_of_copies_not_c(legitimate)')
-    # Mean / Std
-    check_maps(ref, 'background', 'MeanBackground', cval if all_exact else None)
-    check_maps(ref, 'background_rms', 'StdBackgroundRMS', 0.0 if all_exact else None)
+    def check(o, name, cls, want, known=None, lim=0.0):
+        """mesh and map of `name` equal `want` exactly, or (known finding) to within lim."""
+        mesh, mp = (o[0], o[3]) if name == 'background' else (o[1], o[4])
+        if not np.all(mp[cov] == dt(c['fill'])):
+            fails.append(('Background2D:coverage-fill', f'{name} != fill_value on the coverage mask ({cls}, {cfg})'))
+        if np.ptp(mesh) == 0 and not np.all(mp[~cov] == mesh.flat[0]):
+            fails.append(('Background2D:constant-image', f'{name}: constant mesh {mesh.flat[0]!r} but the map is not that '
+                          f'constant ({cls}, {cfg})'))
+        dev = max(float(np.max(np.abs(mesh.astype(float) - want))),
+                  float(np.max(np.abs(mp[~cov].astype(float) - want))) if (~cov).any() else 0.0)
+        if not (dev == dev):
+            dev = math.inf
+        if dev == 0:
+            count(f'exact:{cls}')
+        elif known is not None and dev <= lim + 8 * u:
+            count(f'known_inexact:{cls}')
+            fails.append((known, f'constant image {cval!r} ({data.dtype}, box {c["box"]}): {name} with {cls} deviates from '
+                          f'{want!r} by {dev:.3g} (bound {lim + 8 * u:.3g})'))
+        else:
+            fails.append(('Background2D:constant-image', f'constant image {cval!r}: {name} with {cls} deviates from {want!r} by '
+                          f'{dev:.3g}' + (f' > bound {lim + 8 * u:.3g}' if known else ' (must be exact)') + f' ({cfg})'))
+
+    ref = obs('MeanBackground', 'StdBackgroundRMS')
+    if ref is None:
+        return [], {'all_excluded': 1}
+    ref1 = ref if c['fsize'] == (1, 1) else obs('MeanBackground', 'StdBackgroundRMS', (1, 1))
+    mean1, std1, excl = ref1[0], ref1[1], ref1[5]
+    kept = ~excl
+    mean_exact = (mean1 == dt(cval))
+    count('cases_mean_exact_in_every_box' if np.all(mean_exact[kept]) else 'cases_float_mean_of_copies_not_c')
+    check(ref, 'background', 'MeanBackground', cval, KNOWN_MEAN, bound)
+    check(ref, 'background_rms', 'StdBackgroundRMS', 0.0, KNOWN_STD, bound)
     if np.any(std1[kept & mean_exact] != 0):
         fails.append(('Background2D:constant-image', f'StdBackgroundRMS of a box whose mean is exactly c is not 0 ({cfg})'))
-    # classes that are exact whatever the mean
     for bkg, rms in (('MedianBackground', 'MADStdBackgroundRMS'), ('BiweightLocationBackground', 'BiweightScaleBackgroundRMS')):
         o = obs(bkg, rms)
         if o is None:
             fails.append(('Background2D:raises', f'all boxes excluded with {bkg} but not with MeanBackground ({cfg})'))
             continue
-        check_maps(o, 'background', bkg, cval)
-        check_maps(o, 'background_rms', rms, 0.0)
-    # SExtractor (the default estimator): std == 0 -> mean
-    o = _obs_rel(dict(c, bkg='SExtractorBackground', rms='StdBackgroundRMS', fsize=(1, 1)), data.copy())
+        check(o, 'background', bkg, cval)
+        check(o, 'background_rms', rms, 0.0)
+    # SExtractor (the default estimator): exact (std == 0 -> mean = c; std != 0 -> |mean - median| / std = 1 -> median)
+    o = obs('SExtractorBackground', 'StdBackgroundRMS')
     if o is not None:
+        check(o, 'background', 'SExtractorBackground', cval)
+    o1 = o if c['fsize'] == (1, 1) else obs('SExtractorBackground', 'StdBackgroundRMS', (1, 1))
+    if o1 is not None:
         z = kept & (std1 == 0)
-        if not np.array_equal(o[0][z], mean1[z]):
-            i, j = np.argwhere(z & (o[0] != mean1))[0]
-            fails.append(('Background2D:constant-image', f'constant image: SExtractorBackground mesh[{i},{j}] = {o[0][i, j]!r} '
+        if not np.array_equal(o1[0][z], mean1[z]):
+            i, j = np.argwhere(z & (o1[0] != mean1))[0]
+            fails.append(('Background2D:constant-image', f'constant image: SExtractorBackground mesh[{i},{j}] = {o1[0][i, j]!r} '
                           f'but the box has std 0 and mean {mean1[i, j]!r} ({cfg})'))
-        count('sextractor_cells_std_nonzero(legitimate)', int(np.sum(kept & (std1 != 0))))
-        if all_exact and np.all(std1[kept] == 0):
-            check_maps(o, 'background', 'SExtractorBackground', cval)
     # Mode / MMM: 3 * median - 2 * mean by definition
     for bkg in ('ModeEstimatorBackground', 'MMMBackground'):
-        o = _obs_rel(dict(c, bkg=bkg, rms='StdBackgroundRMS', fsize=(1, 1)), data.copy())
-        if o is None:
+        o1 = obs(bkg, 'StdBackgroundRMS', (1, 1))
+        if o1 is None:
             continue
         want = (3.0 * np.full(mean1.shape, cval, dtype=data.dtype)) - (2.0 * mean1)
-        if not np.array_equal(o[0][kept], want[kept]):
-            i, j = np.argwhere(kept & (o[0] != want))[0]
-            fails.append(('Background2D:mesh-value', f'constant image: {bkg} mesh[{i},{j}] = {o[0][i, j]!r} != 3*median - 2*mean '
+        if not np.array_equal(o1[0][kept], want[kept]):
+            i, j = np.argwhere(kept & (o1[0] != want))[0]
+            fails.append(('Background2D:mesh-value', f'constant image: {bkg} mesh[{i},{j}] = {o1[0][i, j]!r} != 3*median - 2*mean '
                           f'= {want[i, j]!r} ({cfg})'))
-        count(f'{bkg}_not_exactly_c(legitimate: 3c-2c rounds)', int(np.any(o[0][kept] != dt(cval))))
-        if not _near(o[0].astype(float), cval, 4 * tol) or not _near(o[3][~cov].astype(float), cval, 4 * tol):
-            fails.append(('Background2D:constant-image', f'constant image: {bkg} deviates from c by more than {4 * tol:.3g} ({cfg})'))
-    return fails[:4], st
+        o = o1 if c['fsize'] == (1, 1) else obs(bkg, 'StdBackgroundRMS')
+        if o is not None:
+            check(o, 'background', bkg, cval, KNOWN_MODE, (2 * nbox + 4) * u)
+    seen, out = set(), []
+    for f in fails:                      # one entry per signature and class is enough
+        if (f[0], f[1][:60]) not in seen:
+            seen.add((f[0], f[1][:60]))
+            out.append(f)
+    return out[:6], st
 
 
 # --------------------------------------------------------------------------
 # worker: the same cases with bottleneck disabled
 # --------------------------------------------------------------------------
 def worker_main():
-    core_seeds, rel_seeds = json.load(sys.stdin)
+    core_seeds, rel_seeds, const_seeds = json.load(sys.stdin)
     import photutils.utils._stats as st
-    out = {'bn_disabled': not hasattr(st, 'bn_funcs'), 'k': {}, 'rel': {}}
+    out = {'bn_disabled': not hasattr(st, 'bn_funcs'), 'k': {}, 'rel': {}, 'const': {}}
+    for s, k in const_seeds:
+        try:
+            out['const'][str(s)] = run_constant(gen_constant(s, k))[0]
+        except Exception as e:  # noqa: BLE001
+            out['const'][str(s)] = [['Background2D:raises:' + type(e).__name__, repr(e)[:300]]]
     for s in core_seeds:
         c = gen_case(s)
         try:
@@ -1148,10 +1198,10 @@ def worker_main():
     json.dump(out, sys.stdout)
 
 
-def run_worker(core_seeds, rel_seeds):
+def run_worker(core_seeds, rel_seeds, const_seeds=()):
     env = dict(os.environ, C11_NO_BN='1')
     p = subprocess.run([sys.executable, '-W', 'ignore', '-m', 'harness.c11', '--worker'], cwd=str(VERIF), env=env,
-                       input=json.dumps([core_seeds, rel_seeds]), capture_output=True, text=True, timeout=1500)
+                       input=json.dumps([core_seeds, rel_seeds, list(const_seeds)]), capture_output=True, text=True, timeout=1500)
     if p.returncode != 0:
         raise RuntimeError('bottleneck-less worker failed: ' + p.stderr[-1500:])
     return json.loads(p.stdout)
@@ -1373,8 +1423,10 @@ def run(ctx):
 
     # ---- constant images with arbitrary constants, every estimator class ----
     ncon = 150 if quick else 1200
+    const_seeds = []
     for k in range(ncon):
         sd = ctx.rng.randrange(1 << 40)
+        const_seeds.append((sd, k))
         c = gen_constant(sd, k)
         try:
             cf, cst = run_constant(c)
@@ -1391,7 +1443,12 @@ def run(ctx):
     # ---- everything again with bottleneck disabled ----
     kseeds = [c['seed'] for c in cases if c['seed'] is not None][: (150 if quick else 1200)]
     rsub = rel_seeds[: (108 if quick else 612)]
-    w = run_worker(kseeds, rsub)
+    csub = const_seeds[: (60 if quick else 400)]
+    w = run_worker(kseeds, rsub, csub)
+    for sd, k in csub:
+        for sig, msg in w['const'][str(sd)]:
+            ctx.violation(sig, msg + ' [bottleneck disabled]', {'constant': sd, 'k': k, 'bottleneck': False})
+    ctx.support('constant_image_arbitrary_constants_without_bottleneck', len(csub))
     if not w['bn_disabled']:
         ctx.violation('harness-error:bottleneck-still-enabled', 'worker could not disable bottleneck', {}, found_input=False)
     by_seed = {c['seed']: (c, o) for c, o in zip(cases, impl)}
